@@ -16,6 +16,7 @@ From SK Require Import Model.Sbs Proofs.SbsProofs Model.Cbs Proofs.CbsProofs Mod
 Import ListNotations.
 
 
+From SK Require Import Model.PeltR Model.Generic Proofs.GenericR Proofs.PeltReal Proofs.SymmetryDetectors.
 Theorem C12_l2_cost_shift : forall (c : R) (xs : list R) (s e : nat), (s < e <= length xs)%nat -> l2_cost_optim_R (P1 (shift c xs)) (P2 (shift c xs)) s e = l2_cost_optim_R (P1 xs) (P2 xs) s e.
 Proof. exact @l2_optim_shift. Qed.
 
@@ -128,3 +129,73 @@ Print Assumptions C12_capa_column_permutation.
 Print Assumptions C12_affected_columns_permute.
 Print Assumptions C12_pelt_optimal_cost_reversal.
 Print Assumptions C12_mw_scores_reversal.
+
+(** ---- added: statements re-derived from the lemma files by tools/append_props.py ---- *)
+Theorem C12_pelt_output_shift_invariant_l2 : forall (c : R) (xs : list R) (pen : R) (m : nat), (1 <= m)%nat -> (2 * m - 1 <= length xs)%nat -> peltR (l2_cost_optim_R (prefix (shift c xs)) (prefix (sq (shift c xs)))) pen m (m - 1) (length xs) = peltR (l2_cost_optim_R (prefix xs) (prefix (sq xs))) pen m (m - 1) (length xs).
+Proof. exact @pelt_l2_shift. Qed.
+
+Theorem C12_pelt_output_shift_invariant_gaussian : forall (c : R) (xs : list R) (pen : R) (m : nat), (1 <= m)%nat -> (2 * m - 1 <= length xs)%nat -> peltR (gaussian_var_cost_optim_R (prefix (shift c xs)) (prefix (sq (shift c xs)))) pen m (m - 1) (length xs) = peltR (gaussian_var_cost_optim_R (prefix xs) (prefix (sq xs))) pen m (m - 1) (length xs).
+Proof. exact @pelt_gvar_shift. Qed.
+
+Theorem C12_pelt_output_shift_invariant_multicolumn : forall (cxs : list (R * list R)) (pen : R) (m delay n : nat), (1 <= m)%nat -> (2 * m - 1 <= n)%nat -> (forall cx : R * list R, In cx cxs -> length (snd cx) = n) -> peltR (l2_multi (shift_cols cxs)) pen m delay n = peltR (l2_multi (map snd cxs)) pen m delay n.
+Proof. exact @pelt_l2_multicolumn_shift. Qed.
+
+Theorem C12_moving_window_output_shift_invariant_cusum : forall (c : R) (xs : list R) (b : nat) (thr : R) (mdi : nat), (1 <= b)%nat -> gmw Rn (cusum_score_R (prefix (shift c xs))) b (length xs) thr mdi = gmw Rn (cusum_score_R (prefix xs)) b (length xs) thr mdi.
+Proof. exact @mw_cusum_shift. Qed.
+
+Theorem C12_moving_window_output_shift_invariant_l2 : forall (c : R) (xs : list R) (b : nat) (thr : R) (mdi : nat), (1 <= b)%nat -> gmw Rn (ScoreKernels.change_score (l2_cost_optim_R (prefix (shift c xs)) (prefix (sq (shift c xs))))) b (length xs) thr mdi = gmw Rn (ScoreKernels.change_score (l2_cost_optim_R (prefix xs) (prefix (sq xs)))) b (length xs) thr mdi.
+Proof. exact @mw_l2_shift. Qed.
+
+Theorem C12_moving_window_output_shift_invariant_gaussian : forall (c : R) (xs : list R) (b : nat) (thr : R) (mdi : nat), (1 <= b)%nat -> gmw Rn (ScoreKernels.change_score (gaussian_var_cost_optim_R (prefix (shift c xs)) (prefix (sq (shift c xs))))) b (length xs) thr mdi = gmw Rn (ScoreKernels.change_score (gaussian_var_cost_optim_R (prefix xs) (prefix (sq xs)))) b (length xs) thr mdi.
+Proof. exact @mw_gvar_shift. Qed.
+
+Theorem C12_seeded_binseg_output_shift_invariant_cusum : forall (c : R) (xs : list R) (m : nat) (thr : R) (ivs : list (nat * nat)), (1 <= m)%nat -> ivs_inside ivs (length xs) -> gsbs Rn (cusum_score_R (prefix (shift c xs))) m thr ivs = gsbs Rn (cusum_score_R (prefix xs)) m thr ivs.
+Proof. exact @sbs_cusum_shift. Qed.
+
+Theorem C12_seeded_binseg_output_shift_invariant_l2 : forall (c : R) (xs : list R) (m : nat) (thr : R) (ivs : list (nat * nat)), (1 <= m)%nat -> ivs_inside ivs (length xs) -> gsbs Rn (ScoreKernels.change_score (l2_cost_optim_R (prefix (shift c xs)) (prefix (sq (shift c xs))))) m thr ivs = gsbs Rn (ScoreKernels.change_score (l2_cost_optim_R (prefix xs) (prefix (sq xs)))) m thr ivs.
+Proof. exact @sbs_l2_shift. Qed.
+
+Theorem C12_circular_binseg_output_shift_invariant_l2 : forall (c : R) (xs : list R) (m : nat) (thr : R) (ivs : list (nat * nat)), (1 <= m)%nat -> ivs_inside ivs (length xs) -> gcbs Rn (l2_local (shift c xs)) m thr ivs = gcbs Rn (l2_local xs) m thr ivs.
+Proof. exact @cbs_l2_shift. Qed.
+
+Theorem C12_circular_binseg_output_shift_invariant_gaussian : forall (c : R) (xs : list R) (m : nat) (thr : R) (ivs : list (nat * nat)), (1 <= m)%nat -> ivs_inside ivs (length xs) -> gcbs Rn (gvar_local (shift c xs)) m thr ivs = gcbs Rn (gvar_local xs) m thr ivs.
+Proof. exact @cbs_gvar_shift. Qed.
+
+Theorem C12_pelt_changepoints_scale_invariant_gaussian : forall (a : R) (xs : list R) (pen : R) (m : nat), 0 < a -> (1 <= m)%nat -> (2 * m - 1 <= length xs)%nat -> (forall s e : nat, (s + m <= e)%nat -> (e <= length xs)%nat -> floor_ok a xs s e) -> snd (peltR (gaussian_var_cost_optim_R (prefix (scale a xs)) (prefix (sq (scale a xs)))) pen m (m - 1) (length xs)) = snd (peltR (gaussian_var_cost_optim_R (prefix xs) (prefix (sq xs))) pen m (m - 1) (length xs)).
+Proof. exact @pelt_gvar_scale. Qed.
+
+Theorem C12_moving_window_output_scale_invariant_gaussian : forall (a : R) (xs : list R) (b : nat) (thr : R) (mdi : nat), 0 < a -> (1 <= b)%nat -> (forall t : nat, (b <= t)%nat -> (t + b <= length xs)%nat -> floor_ok a xs (t - b) (t + b) /\ floor_ok a xs (t - b) t /\ floor_ok a xs t (t + b)) -> gmw Rn (ScoreKernels.change_score (gaussian_var_cost_optim_R (prefix (scale a xs)) (prefix (sq (scale a xs))))) b (length xs) thr mdi = gmw Rn (ScoreKernels.change_score (gaussian_var_cost_optim_R (prefix xs) (prefix (sq xs)))) b (length xs) thr mdi.
+Proof. exact @mw_gvar_scale. Qed.
+
+Theorem C12_seeded_binseg_output_scale_invariant_gaussian : forall (a : R) (xs : list R) (m : nat) (thr : R) (ivs : list (nat * nat)), 0 < a -> (1 <= m)%nat -> ivs_inside ivs (length xs) -> (forall s e k : nat, In (s, e) ivs -> (s + m <= k)%nat -> (k + m <= e)%nat -> floor_ok a xs s e /\ floor_ok a xs s k /\ floor_ok a xs k e) -> gsbs Rn (ScoreKernels.change_score (gaussian_var_cost_optim_R (prefix (scale a xs)) (prefix (sq (scale a xs))))) m thr ivs = gsbs Rn (ScoreKernels.change_score (gaussian_var_cost_optim_R (prefix xs) (prefix (sq xs)))) m thr ivs.
+Proof. exact @sbs_gvar_scale. Qed.
+
+Theorem C12_circular_binseg_output_scale_invariant_gaussian : forall (a : R) (xs : list R) (m : nat) (thr : R) (ivs : list (nat * nat)), 0 < a -> (1 <= m)%nat -> ivs_inside ivs (length xs) -> (forall s e i j : nat, In (s, e) ivs -> In (i, j) (anomaly_intervals s e m) -> floor_ok a xs s e /\ floor_ok a xs i j /\ pooled_floor_ok a xs s i j e) -> gcbs Rn (gvar_local (scale a xs)) m thr ivs = gcbs Rn (gvar_local xs) m thr ivs.
+Proof. exact @cbs_gvar_scale. Qed.
+
+Theorem C12_pelt_optimal_cost_reversal_invariant_l2 : forall (xs : list R) (pen : R) (m : nat), (1 <= m)%nat -> FR (l2_cost_optim_R (prefix (rev xs)) (prefix (sq (rev xs)))) pen m (length xs) = FR (l2_cost_optim_R (prefix xs) (prefix (sq xs))) pen m (length xs).
+Proof. exact @FR_l2_rev. Qed.
+
+Theorem C12_pelt_final_score_reversal_invariant_l2 : forall (xs : list R) (pen : R) (m : nat), (1 <= m)%nat -> (2 * m <= length xs)%nat -> 0 <= pen -> nth (length xs - 1) (fst (peltR (l2_cost_optim_R (prefix (rev xs)) (prefix (sq (rev xs)))) pen m (m - 1) (length xs))) 0 = nth (length xs - 1) (fst (peltR (l2_cost_optim_R (prefix xs) (prefix (sq xs))) pen m (m - 1) (length xs))) 0.
+Proof. exact @pelt_l2_rev_final_score. Qed.
+
+Theorem C12_pelt_only_valid_cuts_matter_over_reals : forall (C1 C2 : nat -> nat -> R) (pen : R) (m n : nat), (1 <= m)%nat -> (2 * m - 1 <= n)%nat -> (forall s e : nat, (s + m <= e)%nat -> (e <= n)%nat -> C1 s e = C2 s e) -> peltR C1 pen m (m - 1) n = peltR C2 pen m (m - 1) n.
+Proof. exact @peltR_ext_valid. Qed.
+
+Print Assumptions C12_pelt_output_shift_invariant_l2.
+Print Assumptions C12_pelt_output_shift_invariant_gaussian.
+Print Assumptions C12_pelt_output_shift_invariant_multicolumn.
+Print Assumptions C12_moving_window_output_shift_invariant_cusum.
+Print Assumptions C12_moving_window_output_shift_invariant_l2.
+Print Assumptions C12_moving_window_output_shift_invariant_gaussian.
+Print Assumptions C12_seeded_binseg_output_shift_invariant_cusum.
+Print Assumptions C12_seeded_binseg_output_shift_invariant_l2.
+Print Assumptions C12_circular_binseg_output_shift_invariant_l2.
+Print Assumptions C12_circular_binseg_output_shift_invariant_gaussian.
+Print Assumptions C12_pelt_changepoints_scale_invariant_gaussian.
+Print Assumptions C12_moving_window_output_scale_invariant_gaussian.
+Print Assumptions C12_seeded_binseg_output_scale_invariant_gaussian.
+Print Assumptions C12_circular_binseg_output_scale_invariant_gaussian.
+Print Assumptions C12_pelt_optimal_cost_reversal_invariant_l2.
+Print Assumptions C12_pelt_final_score_reversal_invariant_l2.
+Print Assumptions C12_pelt_only_valid_cuts_matter_over_reals.
